@@ -79,6 +79,15 @@ def cases(tier, seed, shard, nshards):
                              p_unready=0.05, mem_heavy=rng.random() < 0.6, maxn=4, npipes=rng.randint(2, 8))
     if tier == "thorough" and shard < 4:
         yield _sim.regression_case(shard)
+    # scale cases: large in one dimension (one per shard for the first shards; all of them, twice, in the thorough tier)
+    _kinds = ["crowd", "many-small", "storm", "crowd"]
+    for _j, _kd in enumerate(_kinds * (1 if tier == "quick" else 2)):
+        if tier == "thorough" or _j == shard:
+            _k, _, _a = _kd.partition(":")
+            yield _sim.scale_case(rng, _k, algo=_a or None)
+    if tier == "thorough":
+        for _k in range(2):
+            yield _sim.long_sim_case(rng, algos=_sim.ALGOS_PLUS)
 
 
 class Shadow:
